@@ -5,13 +5,14 @@
 //! usage: rpc --seed S --cases N --out DIR [--replay-ops f1,f2] [--only-replay 1]
 
 use std::collections::HashMap;
-use std::sync::atomic::{AtomicU64, Ordering};
-use std::sync::{Arc, Mutex};
+use std::sync::atomic::{AtomicBool, AtomicU64, Ordering};
+use std::sync::{Arc, Mutex, Weak};
 use std::time::Duration;
 
 use hutil::{Args, Log, Rng, Stats};
 use ractor::rpc::CallResult;
-use ractor::{Actor, ActorProcessingErr, ActorRef, RpcReplyPort};
+use ractor::actor::messages::BoxedState;
+use ractor::{Actor, ActorId, ActorProcessingErr, ActorRef, RpcReplyPort, SupervisionEvent};
 use tokio::sync::mpsc;
 use tokio::task::JoinHandle;
 
@@ -72,23 +73,122 @@ impl Act {
     }
 }
 
-type PortMap = Arc<Mutex<HashMap<u64, RpcReplyPort<u64>>>>;
+type PortMapInner = Mutex<HashMap<u64, RpcReplyPort<u64>>>;
+type PortMap = Arc<PortMapInner>;
 
-/// Ports "held by the actor": they live in a shared map so the harness can use them later,
-/// but the map is emptied (ports dropped) when the actor's state is dropped.
-struct Kept(PortMap);
-impl Drop for Kept {
-    fn drop(&mut self) {
-        self.0.lock().unwrap().clear();
+struct Callee;
+/// The actor State. `kept` — the ports a handler decided to keep — is OWNED by the state: this is
+/// the only strong reference to the map (the harness holds a `Weak` and upgrades it just for the
+/// duration of a `later` op while the actor is alive = "the actor uses the port in a later
+/// handler"). So the ports die exactly when the state is dropped, and they travel inside the
+/// `BoxedState` of `SupervisionEvent::ActorTerminated(_, Some(state), _)` on a graceful stop.
+struct CalleeState {
+    gate: mpsc::UnboundedReceiver<Act>,
+    kept: PortMap,
+    detached: PortMap,
+    log: Arc<Mutex<Vec<String>>>,
+}
+
+/// what the harness tells a supervisor
+enum SupCmd {
+    /// finish handling the current state-carrying termination event: stash it or drop it
+    Finish(bool),
+    /// take port `p` out of the stashed last state of actor `a` (`BoxedState::take`) and use it
+    Use(usize, u64, Act),
+    /// drop the stashed event of actor `a`
+    DropEvt(usize),
+}
+
+struct SupA;
+struct SupState {
+    gate: mpsc::UnboundedReceiver<SupCmd>,
+    stash: Vec<(usize, SupervisionEvent)>,
+    log: Arc<Mutex<Vec<String>>>,
+    ids: Arc<Mutex<HashMap<ActorId, usize>>>,
+    in_handler: Arc<AtomicBool>,
+}
+
+impl SupState {
+    fn apply(&mut self, cmd: SupCmd) {
+        let r: String = match cmd {
+            SupCmd::Use(a, p, act) => match self.stash.iter_mut().find(|(b, _)| *b == a) {
+                Some((_, SupervisionEvent::ActorTerminated(_, Some(boxed), _))) => match boxed.take::<CalleeState>() {
+                    Ok(cs) => {
+                        let port = cs.kept.lock().unwrap().remove(&p);
+                        *boxed = BoxedState::new(cs);
+                        match (port, act) {
+                            (None, _) => "noport".into(),
+                            (Some(port), Act::Reply(v)) => if port.send(v).is_ok() { "sent-ok".into() } else { "sent-err".into() },
+                            (Some(port), _) => {
+                                drop(port);
+                                "dropped".into()
+                            }
+                        }
+                    }
+                    Err(_) => "bad-state".into(),
+                },
+                _ => "noport".into(),
+            },
+            SupCmd::DropEvt(a) => match self.stash.iter().position(|(b, _)| *b == a) {
+                Some(i) => {
+                    drop(self.stash.remove(i));
+                    "dropped".into()
+                }
+                None => "noevent".into(),
+            },
+            SupCmd::Finish(_) => "idle".into(),
+        };
+        self.log.lock().unwrap().push(r);
     }
 }
 
-struct Callee;
-struct CalleeState {
-    gate: mpsc::UnboundedReceiver<Act>,
-    kept: Kept,
-    detached: PortMap,
+impl Actor for SupA {
+    type Msg = SupCmd;
+    type State = SupState;
+    type Arguments = SupState;
+    async fn pre_start(&self, _: ActorRef<SupCmd>, st: SupState) -> Result<SupState, ActorProcessingErr> {
+        Ok(st)
+    }
+    async fn handle(&self, _: ActorRef<SupCmd>, msg: SupCmd, st: &mut SupState) -> Result<(), ActorProcessingErr> {
+        st.apply(msg);
+        Ok(())
+    }
+    async fn handle_supervisor_evt(&self, _: ActorRef<SupCmd>, evt: SupervisionEvent, st: &mut SupState) -> Result<(), ActorProcessingErr> {
+        // only termination events that carry the child's last state are gated; everything else
+        // (ActorStarted, kills/failures without a state) holds no port and is dropped at once
+        let a = match &evt {
+            SupervisionEvent::ActorTerminated(cell, Some(_), _) => st.ids.lock().unwrap().get(&cell.get_id()).copied(),
+            _ => None,
+        };
+        let Some(a) = a else { return Ok(()) };
+        st.in_handler.store(true, Ordering::SeqCst);
+        loop {
+            match st.gate.recv().await {
+                None => break,
+                Some(SupCmd::Finish(true)) => {
+                    st.log.lock().unwrap().push(format!("evt {a}"));
+                    st.stash.push((a, evt));
+                    break;
+                }
+                Some(SupCmd::Finish(false)) => {
+                    st.log.lock().unwrap().push(format!("evt {a}"));
+                    drop(evt);
+                    break;
+                }
+                Some(other) => st.apply(other),
+            }
+        }
+        st.in_handler.store(false, Ordering::SeqCst);
+        Ok(())
+    }
+}
+
+struct SupH {
+    r: ActorRef<SupCmd>,
+    gate: mpsc::UnboundedSender<SupCmd>,
     log: Arc<Mutex<Vec<String>>>,
+    in_handler: Arc<AtomicBool>,
+    alive: bool,
 }
 
 impl Actor for Callee {
@@ -113,7 +213,7 @@ impl Actor for Callee {
                     st.log.lock().unwrap().push(format!("handled {id}"));
                 }
                 Act::Keep => {
-                    st.kept.0.lock().unwrap().insert(id, port);
+                    st.kept.lock().unwrap().insert(id, port);
                     st.log.lock().unwrap().push(format!("handled {id}"));
                 }
                 Act::Detach => {
@@ -129,11 +229,12 @@ impl Actor for Callee {
 struct ActorH {
     r: ActorRef<Msg>,
     gate: mpsc::UnboundedSender<Act>,
-    kept: PortMap,
+    kept: Weak<PortMapInner>,
     log: Arc<Mutex<Vec<String>>>,
     queued: usize, // messages accepted into the mailbox and not yet handled
     alive: bool,
     draining: bool,
+    sup: Option<usize>,
 }
 
 enum Pending {
@@ -147,6 +248,10 @@ struct World {
     next_port: u64,
     pending: Vec<(u64, Pending)>,
     groups: Vec<Option<JoinHandle<String>>>,
+    sups: Vec<SupH>,
+    ids: Arc<Mutex<HashMap<ActorId, usize>>>,
+    keeper: HashMap<u64, usize>, // port -> actor whose state holds it
+    stashed: Vec<(usize, usize)>, // (supervisor, actor) events the harness had stashed (generator hint only)
 }
 
 async fn quiesce() {
@@ -165,16 +270,106 @@ fn show_res<T>(r: &CallResult<T>, f: impl Fn(&T) -> String) -> String {
 
 impl World {
     fn new() -> Self {
-        World { actors: vec![], detached: Default::default(), next_port: 0, pending: vec![], groups: vec![] }
+        World {
+            actors: vec![],
+            detached: Default::default(),
+            next_port: 0,
+            pending: vec![],
+            groups: vec![],
+            sups: vec![],
+            ids: Default::default(),
+            keeper: HashMap::new(),
+            stashed: vec![],
+        }
     }
 
-    async fn spawn(&mut self) {
+    /// spawn a callee, optionally linked to supervisor `u`; `false` = the spawn failed
+    async fn spawn(&mut self, sup: Option<usize>) -> bool {
         let (tx, rx) = mpsc::unbounded_channel();
         let kept: PortMap = Default::default();
+        let weak = Arc::downgrade(&kept);
         let log: Arc<Mutex<Vec<String>>> = Default::default();
-        let st = CalleeState { gate: rx, kept: Kept(kept.clone()), detached: self.detached.clone(), log: log.clone() };
-        let (r, _h) = Actor::spawn(None, Callee, st).await.expect("spawn");
-        self.actors.push(ActorH { r, gate: tx, kept, log, queued: 0, alive: true, draining: false });
+        let st = CalleeState { gate: rx, kept, detached: self.detached.clone(), log: log.clone() };
+        let res = match sup {
+            None => Actor::spawn(None, Callee, st).await,
+            Some(u) => Actor::spawn_linked(None, Callee, st, self.sups[u].r.get_cell()).await,
+        };
+        let Ok((r, _h)) = res else { return false };
+        self.ids.lock().unwrap().insert(r.get_id(), self.actors.len());
+        self.actors.push(ActorH { r, gate: tx, kept: weak, log, queued: 0, alive: true, draining: false, sup });
+        true
+    }
+
+    async fn spawn_sup(&mut self) {
+        let (tx, rx) = mpsc::unbounded_channel();
+        let log: Arc<Mutex<Vec<String>>> = Default::default();
+        let in_handler = Arc::new(AtomicBool::new(false));
+        let st = SupState { gate: rx, stash: vec![], log: log.clone(), ids: self.ids.clone(), in_handler: in_handler.clone() };
+        let (r, _h) = Actor::spawn(None, SupA, st).await.expect("spawn sup");
+        self.sups.push(SupH { r, gate: tx, log, in_handler, alive: true });
+    }
+
+    fn take_sup_log(&mut self, u: usize) -> String {
+        let mut l = self.sups[u].log.lock().unwrap();
+        let s = l.join(",");
+        l.clear();
+        if s.is_empty() { "idle".into() } else { s }
+    }
+
+    /// deliver a command to supervisor `u`: through the gate when it sits in `handle_supervisor_evt`
+    /// (it keeps serving commands there), as an ordinary message otherwise
+    async fn sup_cmd(&mut self, u: usize, cmd: SupCmd) -> String {
+        if self.sups[u].in_handler.load(Ordering::SeqCst) {
+            let _ = self.sups[u].gate.send(cmd);
+        } else {
+            let _ = self.sups[u].r.cast(cmd);
+        }
+        quiesce().await;
+        self.take_sup_log(u)
+    }
+
+    async fn suphandle(&mut self, u: usize, stash: bool) -> String {
+        if u >= self.sups.len() {
+            return "bad-sup".into();
+        }
+        if !self.sups[u].alive || !self.sups[u].in_handler.load(Ordering::SeqCst) {
+            return Self::fmt("idle", self.events().await);
+        }
+        let pre = self.sup_cmd(u, SupCmd::Finish(stash)).await;
+        if let (true, Some(a)) = (stash, pre.strip_prefix("evt ").and_then(|x| x.parse::<usize>().ok())) {
+            self.stashed.push((u, a));
+        }
+        Self::fmt(&pre, self.events().await)
+    }
+
+    async fn supdrop(&mut self, u: usize, a: usize) -> String {
+        if u >= self.sups.len() {
+            return "bad-sup".into();
+        }
+        if !self.sups[u].alive {
+            return Self::fmt("noevent", self.events().await);
+        }
+        let pre = self.sup_cmd(u, SupCmd::DropEvt(a)).await;
+        self.stashed.retain(|x| *x != (u, a));
+        Self::fmt(&pre, self.events().await)
+    }
+
+    async fn supexit(&mut self, u: usize) -> String {
+        if u >= self.sups.len() {
+            return "bad-sup".into();
+        }
+        self.sups[u].r.kill();
+        self.sups[u].alive = false;
+        self.stashed.retain(|x| x.0 != u);
+        quiesce().await;
+        self.refresh_alive();
+        Self::fmt("ok", self.events().await)
+    }
+
+    fn note_keeper(&mut self, a: usize, act: Act, pre: &str) {
+        if let (Act::Keep, Some(id)) = (act, pre.strip_prefix("handled ").and_then(|x| x.split(' ').next()).and_then(|x| x.parse::<u64>().ok())) {
+            self.keeper.insert(id, a);
+        }
     }
 
     /// collect completion events after an op (sorted: calls by port, then groups)
@@ -393,6 +588,7 @@ impl World {
         self.actors[a].queued -= 1;
         quiesce().await;
         let pre = self.take_log(a);
+        self.note_keeper(a, act, &pre);
         self.refresh_alive();
         Self::fmt(&pre, self.events().await)
     }
@@ -407,16 +603,22 @@ impl World {
     }
 
     async fn later(&mut self, p: u64, act: Act) -> String {
-        let port = {
-            let mut found = None;
-            for ah in self.actors.iter() {
-                if let Some(port) = ah.kept.lock().unwrap().remove(&p) {
-                    found = Some(port);
-                    break;
+        let mut kept_port = None;
+        if let Some(&a) = self.keeper.get(&p) {
+            if self.actors[a].alive {
+                // the actor itself uses a port it kept in its state
+                if let Some(m) = self.actors[a].kept.upgrade() {
+                    kept_port = m.lock().unwrap().remove(&p);
+                }
+            } else if let Some(u) = self.actors[a].sup {
+                // the state may live on in a termination event: only the supervisor can reach it
+                if self.sups[u].alive {
+                    let pre = self.sup_cmd(u, SupCmd::Use(a, p, act)).await;
+                    return Self::fmt(&pre, self.events().await);
                 }
             }
-            found.or_else(|| self.detached.lock().unwrap().remove(&p))
-        };
+        }
+        let port = kept_port.or_else(|| self.detached.lock().unwrap().remove(&p));
         let pre = match (port, act) {
             (None, _) => "noport".to_string(),
             (Some(port), Act::Reply(v)) => if port.send(v).is_ok() { "sent-ok".into() } else { "sent-err".into() },
@@ -479,6 +681,7 @@ impl World {
             let _ = self.actors[a].gate.send(act);
             quiesce().await;
             pre = self.take_log(a);
+            self.note_keeper(a, act, &pre);
         }
         quiesce().await;
         self.refresh_alive();
@@ -506,6 +709,10 @@ impl World {
             ah.r.kill();
         }
         quiesce().await;
+        for sh in self.sups.iter() {
+            sh.r.kill();
+        }
+        quiesce().await;
         for (_, p) in self.pending.drain(..) {
             match p {
                 Pending::Call(h) => h.abort(),
@@ -525,9 +732,20 @@ impl World {
         let t = |s: &str| -> Option<u64> { if s == "-" { None } else { s.parse().ok() } };
         match w.as_slice() {
             ["spawn"] => {
-                self.spawn().await;
+                self.spawn(None).await;
                 "ok".into()
             }
+            ["spawnsup"] => {
+                self.spawn_sup().await;
+                "ok".into()
+            }
+            ["spawnl", u] => match u.parse::<usize>() {
+                Ok(u) if u < self.sups.len() => if self.spawn(Some(u)).await { "ok".into() } else { "failed".into() },
+                _ => "bad-sup".into(),
+            },
+            ["suphandle", u, what] => self.suphandle(u.parse().unwrap_or(99), *what == "stash").await,
+            ["supdrop", u, a] => self.supdrop(u.parse().unwrap_or(99), a.parse().unwrap_or(usize::MAX)).await,
+            ["supexit", u] => self.supexit(u.parse().unwrap_or(99)).await,
             ["call", a, tt] => self.call(a.parse().unwrap_or(99), t(tt), false, false).await,
             ["call", a, tt, "m"] => self.call(a.parse().unwrap_or(99), t(tt), true, false).await,
             ["call", a, tt, "d"] => self.call(a.parse().unwrap_or(99), t(tt), false, true).await,
@@ -580,14 +798,46 @@ async fn gen_case(log: &mut Log, st: &mut Stats, rng: &mut Rng, len: u64) {
     let mut w = World::new();
     log.rec("case", "ok");
     let n = rng.range(1, 4) as usize;
+    // supervisors: half of the cases have none, the others 1-2; callees are linked to one with p = 2/3
+    let nsup = if rng.chance(1, 2) { 0 } else { rng.range(1, 2) as usize };
+    for _ in 0..nsup {
+        let o = w.exec("spawnsup").await;
+        log.rec("spawnsup", o);
+    }
     for _ in 0..n {
-        let o = w.exec("spawn").await;
-        log.rec("spawn", o);
+        let line = if nsup > 0 && rng.chance(2, 3) { format!("spawnl {}", rng.below(nsup as u64)) } else { "spawn".to_string() };
+        let o = w.exec(&line).await;
+        log.rec(line, o);
     }
     for _ in 0..len {
-        let a = rng.below(n as u64);
-        let k = rng.below(100);
+        let na = w.actors.len() as u64;
+        let a = rng.below(na);
+        let mut k = rng.below(100);
+        if nsup > 0 && rng.chance(1, 5) {
+            k = 100 + rng.below(20);
+        }
+        // ports sitting in the state of an actor that has stopped (possibly inside a held event)
+        let mut in_dead_state: Vec<u64> = w.keeper.iter().filter(|(_, a)| !w.actors[**a].alive).map(|(p, _)| *p).collect();
+        in_dead_state.sort();
         let line = match k {
+            100..=107 => format!("suphandle {} {}", rng.below(nsup as u64), if rng.chance(2, 3) { "stash" } else { "drop" }),
+            108..=111 => {
+                if !w.stashed.is_empty() && rng.chance(3, 4) {
+                    let (u, b) = *rng.pick(&w.stashed);
+                    format!("supdrop {u} {b}")
+                } else {
+                    format!("supdrop {} {a}", rng.below(nsup as u64))
+                }
+            }
+            112..=115 if !in_dead_state.is_empty() => {
+                let p = *rng.pick(&in_dead_state);
+                let act = if rng.chance(3, 4) { Act::Reply(rng.below(100_000)) } else { Act::Drop };
+                format!("later {p} {}", act.show())
+            }
+            112..=116 => format!("stop {a} keep"),
+            117 => format!("spawnl {}", rng.below(nsup as u64)),
+            118 => format!("handle {a} keep"),
+            119 => if rng.chance(1, 2) { format!("supexit {}", rng.below(nsup as u64)) } else { format!("handle {a} keep") },
             0..=29 => format!("call {a} {}{}", gen_timeout(rng), *rng.pick(&["", "", " m", " d"])),
             30..=59 => format!("handle {a} {}", gen_act(rng).show()),
             60..=68 => {
@@ -598,10 +848,10 @@ async fn gen_case(log: &mut Log, st: &mut Stats, rng: &mut Rng, len: u64) {
             }
             69..=75 => {
                 let m = rng.range(1, 3);
-                let ts: Vec<String> = (0..m).map(|_| rng.below(n as u64).to_string()).collect();
+                let ts: Vec<String> = (0..m).map(|_| rng.below(na).to_string()).collect();
                 format!("mcall {} {}", ts.join(","), gen_timeout(rng))
             }
-            76..=83 => format!("fcall {a} {} {}{}", rng.below(n as u64), gen_timeout(rng), if rng.chance(1, 2) { " m" } else { "" }),
+            76..=83 => format!("fcall {a} {} {}{}", rng.below(na), gen_timeout(rng), if rng.chance(1, 2) { " m" } else { "" }),
             84..=91 => format!("advance {}", rng.pick(&[1u64, 1, 2, 3, 7])),
             92 => format!("{} {a}", rng.pick(&["badcast", "badsend", "badcall"])),
             93..=94 => format!("exit {a}"),
@@ -624,6 +874,15 @@ async fn gen_case(log: &mut Log, st: &mut Stats, rng: &mut Rng, len: u64) {
         }
         if obs.contains("fdone") {
             st.bump("obs_fdone");
+        }
+        if obs.starts_with("evt ") {
+            st.bump(if line.ends_with("stash") { "obs_event_stashed" } else { "obs_event_dropped" });
+        }
+        if line.starts_with("supdrop") && obs.starts_with("dropped") {
+            st.bump("obs_stashed_event_dropped");
+        }
+        if line.starts_with("later") && w.keeper.get(&line.split(' ').nth(1).and_then(|x| x.parse::<u64>().ok()).unwrap_or(u64::MAX)).is_some_and(|a| !w.actors[*a].alive) && (obs.starts_with("sent-") || obs.starts_with("dropped")) {
+            st.bump("obs_port_used_from_stashed_state");
         }
         log.rec(line, obs);
     }
